@@ -53,14 +53,6 @@ fn use_after(c: &mut C, n: usize) {
         let r = c.remove_lru();
         vcheck!(r.is_some() == (before > 0), "[C07 C13 ] remove_lru after a reallocation does not find the LRU entry");
         drop(r);
-        if let Some(k) = c.peek_mru().map(|(k, _)| k.k) {
-            let _ = c.get(&k);
-        }
-        let lru = c.peek_lru().map(|(k, _)| k.k);
-        if let Some(k) = lru {
-            vcheck!(c.get(&k).is_some(), "[C07 C13 ] get after a reallocation misses an entry");
-            vcheck!(c.peek_mru().map(|(k, _)| k.k) == Some(k), "[C07 C13 C05 ] get after a reallocation did not promote the entry");
-        }
         inv(c, n + 2);
     });
 }
@@ -70,27 +62,31 @@ pub fn h_capacity(n: usize, cap: usize, tab: [u8; 8], which: u8, nd: bool) {
     h_capacity_t(n, cap, tab, which, nd, -1)
 }
 pub fn h_capacity_t(n: usize, cap: usize, tab: [u8; 8], which: u8, nd: bool, tfix: i8) {
+    h_capacity_ta(n, cap, tab, which, nd, tfix, -1, -1)
+}
+/// `argfix >= 0`: concrete argument; `failfix`: -1 symbolic, 0 no injected failure, 1 injected allocator refusal.
+pub fn h_capacity_ta(n: usize, cap: usize, tab: [u8; 8], which: u8, nd: bool, tfix: i8, argfix: i64, failfix: i8) {
     let (mut c, st, exp) = build_shaped_t(n, cap, tab, 0, nd, tfix);
     let cap0 = c.capacity();
     let len = c.len();
     let tables0 = tm::tables_allocated();
     #[cfg(any(vp_all, C13))]
     let f0 = fp(&c, n + 1);
-    let arg: usize = sym::any();
+    let arg: usize = if argfix >= 0 { argfix as usize } else { sym::any() };
     match which {
         0 => {
             // bound of the table model: at most 7 entries
             sym::assume(arg <= 7 - len);
             c.reserve(arg);
             vassert!([C13], c.capacity() >= len + arg, "reserve left capacity below len + additional");
-            vcover!(c.capacity() > cap0, "reserve: reallocated");
-            vcover!(c.capacity() == cap0, "reserve: capacity sufficed");
+            vcover!(if argfix < 0 || argfix as usize + len > cap0, c.capacity() > cap0, "reserve: reallocated");
+            vcover!(if argfix < 0, c.capacity() == cap0, "reserve: capacity sufficed");
         }
         1 => {
             // Either the request fits the table model (<= 7 entries) or it is so large that
             // the real hashbrown refuses it as well (the native replay must see the same outcome).
             sym::assume(arg <= 7 - len || arg >= (1usize << 60));
-            let fail: bool = sym::any();
+            let fail: bool = if failfix >= 0 { failfix == 1 } else { sym::any() };
             if fail {
                 tm::fail_next_alloc();
             }
@@ -109,9 +105,9 @@ pub fn h_capacity_t(n: usize, cap: usize, tab: [u8; 8], which: u8, nd: bool, tfi
                     vassert!([C13], len.checked_add(arg).map_or(true, |need| need > cap0), "try_reserve failed although the capacity already sufficed");
                 }
             }
-            vcover!(r.is_ok() && c.capacity() > cap0, "try_reserve: reallocated");
-            vcover!(matches!(r, Err(hashbrown::TryReserveError::AllocError { .. })), "try_reserve: allocator refusal");
-            vcover!(matches!(r, Err(hashbrown::TryReserveError::CapacityOverflow)), "try_reserve: capacity overflow");
+            vcover!(if failfix != 1 && (argfix < 0 || (argfix as usize) < 8), r.is_ok() && c.capacity() > cap0, "try_reserve: reallocated");
+            vcover!(if failfix != 0, matches!(r, Err(hashbrown::TryReserveError::AllocError { .. })), "try_reserve: allocator refusal");
+            vcover!(if argfix < 0, matches!(r, Err(hashbrown::TryReserveError::CapacityOverflow)), "try_reserve: capacity overflow");
         }
         2 => {
             // requests beyond the table model (> 7) are outside the bound
@@ -120,8 +116,8 @@ pub fn h_capacity_t(n: usize, cap: usize, tab: [u8; 8], which: u8, nd: bool, tfi
             let floor = if len > arg { len } else { arg };
             vassert!([C13], c.capacity() <= cap0, "shrink_to raised the capacity");
             vassert!([C13], cap0 < floor || c.capacity() >= floor, "shrink_to left capacity below max(len, min_capacity)");
-            vcover!(c.capacity() < cap0, "shrink_to: shrank");
-            vcover!(arg > cap0, "shrink_to: min_capacity above the current capacity");
+            vcover!(if cap0 > 3, c.capacity() < cap0, "shrink_to: shrank");
+            vcover!(if cap0 < 7, arg > cap0, "shrink_to: min_capacity above the current capacity");
         }
         _ => {
             c.shrink_to_fit();
@@ -481,17 +477,23 @@ pub fn h_clone_s(n: usize, cap: usize, tab: [u8; 8], op: u8, side: u8, nd: bool,
 
 // `nd` = model nondeterminism (any bucket placement, tombstones) - costly, thorough tier.
 harnesses! {
-    reserve_n3_c3_t0 [6] => h_capacity_t(3, 3, tab_of(6), 0, false, 0); //@ q=C13,C07,C04,C05,C06,C20 t=C02 to=900
-    reserve_n3_c3_t1 [6] => h_capacity_t(3, 3, tab_of(6), 0, false, 1); //@ q=C13,C07,C05 t=C04,C06,C20,C02 to=900
+    reserve_n3_c3_t0 [6] => h_capacity_t(3, 3, tab_of(6), 0, false, 0); //@ q=C13,C04,C05,C06,C20 t=C07,C02 to=900
+    reserve_n3_c3_t1 [6] => h_capacity_t(3, 3, tab_of(6), 0, false, 1); //@ q=C13,C05 t=C07,C04,C06,C20,C02 to=900
     reserve_n3_c3_sym [6] => h_capacity(3, 3, tab_of(6), 0, false); //@ t=C13,C07 to=1200
     reserve_n0_c0 [4] => h_capacity(0, 0, tab_of(6), 0, false); //@ q=C13 t=C07 to=600
     reserve_n2_c3_collide_t0 [5] => h_capacity_t(2, 3, tab_of(0), 0, false, 0); //@ q=C13,C04 t=C07 to=900
     reserve_n3_c3_nd [6] => h_capacity(3, 3, tab_of(6), 0, true); //@ t=C13,C07 to=2400
-    try_reserve_n3_c3_t0 [6] => h_capacity_t(3, 3, tab_of(6), 1, false, 0); //@ q=C13,C07 t=C04,C05,C06,C20 to=900
-    try_reserve_n3_c3_t2 [6] => h_capacity_t(3, 3, tab_of(6), 1, false, 2); //@ q=C13,C07 t=C04,C05,C06,C20 to=900
+    try_reserve_n3_c3_t0 [6] => h_capacity_t(3, 3, tab_of(6), 1, false, 0); //@ q=C13,C04,C06 t=C07,C05,C20 to=900
+    try_reserve_n3_c3_t2 [6] => h_capacity_t(3, 3, tab_of(6), 1, false, 2); //@ q=C13 t=C07,C04,C05,C06,C20 to=900
     try_reserve_n3_c3_sym [6] => h_capacity(3, 3, tab_of(6), 1, false); //@ t=C13 to=1200
+    try_reserve_n2_c3_t0 [5] => h_capacity_t(2, 3, tab_of(6), 1, false, 0); //@ q=C13 t=C07,C06 to=900
+    reserve_n3_c3_t0_a4 [6] => h_capacity_ta(3, 3, tab_of(6), 0, false, 0, 4, 0); //@ q=C07,C06,C04,C05 to=900
+    reserve_n3_c3_t1_a1 [6] => h_capacity_ta(3, 3, tab_of(6), 0, false, 1, 1, 0); //@ q=C07 to=900
+    try_reserve_n3_c3_t1_fail [6] => h_capacity_ta(3, 3, tab_of(6), 1, false, 1, 4, 1); //@ q=C07,C06,C04,C13 to=900
+    try_reserve_n3_c3_t0_ok [6] => h_capacity_ta(3, 3, tab_of(6), 1, false, 0, 2, 0); //@ q=C07 to=900
+    shrink_to_n2_c7_t1_a3 [5] => h_capacity_ta(2, 7, tab_of(6), 2, false, 1, 3, 0); //@ q=C07,C06 to=900
     try_reserve_n0_c0 [4] => h_capacity(0, 0, tab_of(6), 1, false); //@ q=C13 to=600
-    shrink_to_n2_c7_t0 [5] => h_capacity_t(2, 7, tab_of(6), 2, false, 0); //@ q=C13,C07 t=C04,C05,C06,C20 to=900
+    shrink_to_n2_c7_t0 [5] => h_capacity_t(2, 7, tab_of(6), 2, false, 0); //@ q=C13 t=C07,C04,C05,C06,C20 to=900
     shrink_to_n2_c7_t1 [5] => h_capacity_t(2, 7, tab_of(6), 2, false, 1); //@ q=C13 t=C07,C04,C05,C06,C20 to=900
     shrink_to_n2_c7_sym [5] => h_capacity(2, 7, tab_of(6), 2, false); //@ t=C13 to=1200
     shrink_to_n3_c7 [6] => h_capacity(3, 7, tab_of(6), 2, false); //@ t=C13,C07 to=1200
@@ -511,7 +513,7 @@ harnesses! {
     with_capacity_n4 [6] => h_with_capacity(4, tab_of(6), false); //@ t=C13 to=1200
     clone_n3_c3 [6] => h_clone(3, 3, tab_of(6), 0, 0, false); //@ q=C14,C19,C06,C20,C05 t=C07,C13 to=900
     clone_n3_drop_src [6] => h_clone(3, 3, tab_of(6), 7, 1, false); //@ q=C14,C07,C06 to=900
-    clone_n2_insert_clone [5] => h_clone(2, 3, tab_of(6), 1, 0, false); //@ q=C14 t=C06,C07 to=1200
+    clone_n2_insert_clone [5] => h_clone(2, 3, tab_of(6), 1, 0, false); //@ t=C14,C06,C07 to=2400
     clone_n2_remove_src [5] => h_clone(2, 3, tab_of(6), 2, 1, false); //@ q=C14 t=C06,C07 to=1200
     clone_n2_get_clone [5] => h_clone(2, 3, tab_of(6), 3, 0, false); //@ q=C14 to=900
     clone_n2_setmax_src [5] => h_clone(2, 3, tab_of(6), 4, 1, false); //@ t=C14 to=1200
